@@ -404,54 +404,90 @@ def proto_rule(ctx, facts, cfg, pe):
 
 # ---------------------------------------------------------------------------
 class StaleAu(Automaton):
-    """state (replaced, frozenset of blocks whose offset()/offset_next() call ran before the replacement, complaints)"""
+    """Path-sensitive provenance of cursor positions in one body.
+    state = (replaced, prov, complaints): prov = frozenset of (local, call block) "this local holds (something computed from) the result of
+    the offset()/offset_next() call in that block, made before the packet was replaced"; entries are created only while not replaced."""
     init = (False, frozenset(), frozenset())
+    PLUMBING = ('std::option::', 'std::result::', '<std::result::', '<std::option::', 'core::option::', 'core::result::', '<core::', 'std::convert::', '<T as std::convert::')
 
-    def __init__(self, facts, uses, top):
+    def __init__(self, facts, top):
         self.facts = facts
-        self.top = top        # events are tracked in this body only (the one that stores the decompressed packet)
-        self.uses = uses      # {(fn key, block, 'stmt'|'term', index): set of offset-call blocks among the roots of its operands}
+        self.top = top
 
     @staticmethod
     def _is_cursor_call(t):
-        p = F.call_path(t) or ''
-        return bool(re.search(r'DNSIterable>?::offset(_next)?$', p))
+        return bool(re.search(r'DNSIterable>?::offset(_next)?$', F.call_path(t) or ''))
 
-    def _use(self, q, f, bi, what, idx):
-        rep, pre, bad = q
-        if not rep:
-            return q
-        hit = self.uses.get((f['key'], bi, what, idx), set()) & pre
-        if hit:
-            bad = bad | {(bi, what, idx)}
-        return (rep, pre, bad)
+    @staticmethod
+    def _locals_of(o, acc):
+        if isinstance(o, dict):
+            if 'local' in o and 'proj' in o:
+                acc.add(o['local'])
+                for pj in o['proj']:
+                    if pj.get('k') == 'index' and 'local' in pj:
+                        acc.add(pj['local'])
+            for v in o.values():
+                StaleAu._locals_of(v, acc)
+        elif isinstance(o, list):
+            for v in o:
+                StaleAu._locals_of(v, acc)
+
+    def _prov_of(self, prov, obj):
+        ls = set()
+        self._locals_of(obj, ls)
+        return {cb for (l, cb) in prov if l in ls}
 
     def on_stmt(self, q, f, bi, s, env):
-        if f['key'] != self.top:
+        if f['key'] != self.top or s['k'] != 'assign':
             return q
-        idx = f['blocks'][bi]['stmts'].index(s)
-        q = self._use(q, f, bi, 'stmt', idx)
-        rep, pre, bad = q
-        if s['k'] == 'assign' and F.last_field(s['place']) == (PP, 'packet') and not rep:
-            return (True, pre, bad)
-        return q
+        rep, prov, bad = q
+        src = self._prov_of(prov, s['rv'])
+        # a sink: an element of a buffer addressed with a stale position (read or written)
+        idx = set()
+        for pl in [s['place']] + ([s['rv'].get('place')] if isinstance(s['rv'].get('place'), dict) else []) + \
+                ([s['rv']['x'].get('place')] if isinstance(s['rv'].get('x'), dict) and isinstance(s['rv']['x'].get('place'), dict) else []):
+            for pj in pl.get('proj', []):
+                if pj.get('k') == 'index' and 'local' in pj:
+                    idx.add(pj['local'])
+        if rep and any(l in idx for (l, cb) in prov):
+            bad = bad | {(bi, 'stmt', f['blocks'][bi]['stmts'].index(s))}
+        if F.last_field(s['place']) == (PP, 'packet') and not rep:
+            return (True, prov, bad)
+        if not s['place']['proj']:
+            L = s['place']['local']
+            prov = frozenset((l, cb) for (l, cb) in prov if l != L) | frozenset((L, cb) for cb in src)
+        return (rep, prov, bad)
 
     def on_call(self, q, f, bi, t, env, flow):
         if f['key'] != self.top:
             return None
-        q0 = q
-        q = self._use(q, f, bi, 'term', 0)
-        rep, pre, bad = q
-        if self._is_cursor_call(t) and not rep:
-            return [((rep, pre | {bi}, bad), None)]
-        if q != q0:
-            return [(q, None)]
+        rep, prov, bad = q
+        p = F.call_path(t) or ''
+        src = self._prov_of(prov, t['args'])
+        plumbing = p.startswith(self.PLUMBING) or ' as std::ops::Try>' in p or ' as std::ops::FromResidual' in p
+        if rep and src and not plumbing and not p.endswith('uncompress_with_previous_offset'):
+            bad = bad | {(bi, 'term', 0)}
+        L = t['dest']['local'] if not t['dest']['proj'] else None
+        if L is not None:
+            prov = frozenset((l, cb) for (l, cb) in prov if l != L)
+            if self._is_cursor_call(t):
+                if not rep:
+                    prov = prov | {(L, bi)}
+            elif plumbing:
+                prov = prov | frozenset((L, cb) for cb in src)
+        q2 = (rep, prov, bad)
+        if q2 != q:
+            keys = [ck for ck in self.facts.callee_keys(f, t) if not ck.startswith('ext:') and ck != '<indirect>']
+            if not keys or plumbing or self._is_cursor_call(t):
+                return [(q2, None)]
+            # a local callee: keep the updated state and let the default treatment walk into it (events inside it are ignored)
+            return [(q2, None)]
         return None
 
 
 def stale_rule(ctx, facts, cfg):
     """C08.i: a value obtained from the cursor's offset()/offset_next() before the packet is replaced by its decompressed form is not
-    used afterwards (positions move when names expand; the translated value must be re-read)."""
+    used afterwards (positions move when names expand; the translated value must be re-read).  Provenance is tracked per path."""
     rid = 'C08.i'
     n = 0
     for key, f in sorted(facts.fns.items()):
@@ -464,57 +500,7 @@ def stale_rule(ctx, facts, cfg):
         if not (has and stores):
             continue
         n += 1
-        defs = F.single_defs(f)
-        callblk = {id(b['term']): bi for bi, b in F.blocks(f) if b['term']['k'] == 'call'}
-
-        def cursor_roots(op):
-            out = set()
-            try:
-                for r in F.roots(f, defs, op):
-                    if r[0] == 'call' and re.search(r'DNSIterable>?::offset(_next)?$', str(r[1])) and id(r[2]) in callblk:
-                        out.add(callblk[id(r[2])])
-            except Exception:  # noqa
-                pass
-            return out
-
-        def ops_of(o, acc):
-            if isinstance(o, dict):
-                if o.get('k') in ('copy', 'move') and 'place' in o:
-                    acc.append(o)
-                    for pj in o['place'].get('proj', []):
-                        if pj.get('k') == 'index' and 'local' in pj:
-                            acc.append({'k': 'copy', 'place': {'local': pj['local'], 'proj': [], 'ty': {}}})
-                for v in o.values():
-                    ops_of(v, acc)
-            elif isinstance(o, list):
-                for v in o:
-                    ops_of(v, acc)
-        uses = {}
-        for bi, b in F.blocks(f):
-            for i, st in enumerate(b['stmts']):
-                if st['k'] != 'assign' or not st['place']['proj'] and st['rv']['k'] in ('use', 'ref', 'cast'):
-                    # plain copies / borrows only move the value around; what counts is where it ends up being used
-                    if st['k'] != 'assign' or not any(pj.get('k') == 'index' for pj in st['place']['proj']):
-                        continue
-                acc = []
-                ops_of(st.get('rv'), acc)
-                ops_of(st.get('place'), acc)
-                rs = set()
-                for o in acc:
-                    rs |= cursor_roots(o)
-                if rs:
-                    uses[(key, bi, 'stmt', i)] = rs
-            t = b['term']
-            if t['k'] == 'call':
-                p = F.call_path(t) or ''
-                if p.startswith(('std::option::', 'std::result::', '<std::result::', '<std::option::', 'core::')) or p.endswith('uncompress_with_previous_offset'):
-                    continue    # plumbing (?, ok_or, unwrap) and the decompressor itself, which is given the old position on purpose
-                rs = set()
-                for a in t['args']:
-                    rs |= cursor_roots(a)
-                if rs:
-                    uses[(key, bi, 'term', 0)] = rs
-        au = StaleAu(facts, uses, key)
+        au = StaleAu(facts, key)
         flow = PathFlow(facts, au)
         exits = flow.summary(key, StaleAu.init)
         bad = set()
@@ -523,10 +509,11 @@ def stale_rule(ctx, facts, cfg):
             if q[2]:
                 bad |= set(q[2])
                 wit = wit or (q, kind)
-        ctx.instance(rid, '%s: no cursor position read before the in-place decompression is used after it (%d use site(s) of cursor positions)' % (key, len(uses)), ok=not bad, site=f['at'])
+        ncur = sum(1 for _, b in F.blocks(f) if b['term']['k'] == 'call' and StaleAu._is_cursor_call(b['term']))
+        ctx.instance(rid, '%s: no cursor position read before the in-place decompression is used after it (%d offset()/offset_next() call(s) tracked per path)' % (key, ncur), ok=not bad, site=f['at'])
         for (bi, what, idx) in sorted(bad)[:2]:
             at = (f['blocks'][bi]['stmts'][idx] if what == 'stmt' else f['blocks'][bi]['term']).get('at')
-            ctx.violation(rid, key, 'stale-offset@%s' % (F.call_path(f['blocks'][bi]['term']) or 'stmt').split('::')[-1] if what == 'term' else 'stale-offset@stmt',
+            ctx.violation(rid, key, 'stale-offset@%s' % ((F.call_path(f['blocks'][bi]['term']) or 'call').split('::')[-1] if what == 'term' else 'element-access'),
                           '%s uses, at %s, a record position that was read from the cursor before the packet was replaced by its decompressed form: names in front of the record have grown, '
                           'the bytes are written to / read from the wrong place' % (key.split('::')[-1].split('@')[0], at), site=at,
                           path=flow.describe_path(key, flow.witness(key, StaleAu.init, wit[0], wit[1])) if wit else None, config=cfg)
